@@ -24,12 +24,21 @@ def class_modules(ctx, contract):
     return out
 
 
-def job_for(ctx, contract, unit, cases, observe=None):
+def job_for(ctx, contract, unit, cases, observe=None, shapes=None):
     a = unit.node.args
     params = [p.arg for p in a.posonlyargs + a.args]
     kwonly = [p.arg for p in a.kwonlyargs if p.arg in contract.types]
-    types = dict(contract.types)
+    types = dict(shapes or {})
+    types.update(contract.types)
     cm = class_modules(ctx, contract)
+    alltypes = list(types.values()) + [t for d in contract.class_fields.values() for t in d.values()]
+    for t in alltypes:
+        for part in str(t).replace("[", ",").replace("]", ",").split(","):
+            part = part.strip()
+            if part.startswith("obj:"):
+                cf = ctx.facts.cls(part[4:])
+                if cf is not None:
+                    cm[cf.name] = cf.file[:-3].replace("/", ".")
     if "self" in params and "self" not in types and unit.cls is not None:
         types["self"] = f"obj:{unit.cls.name}"
         cm[unit.cls.name] = unit.cls.file[:-3].replace("/", ".")
@@ -37,7 +46,9 @@ def job_for(ctx, contract, unit, cases, observe=None):
         "repo": ctx.facts.repo, "target": contract.target, "types": types, "macros": contract.macros,
         "class_modules": cm, "clauses": contract.ensures, "clauses_exc": contract.ensures_exc,
         "requires": contract.requires, "raises": contract.raises, "params": params, "kwonly": kwonly,
-        "cases": cases, "observe": observe or sorted(p for p in contract.types if "." in p or p in params),
+        "cases": cases, "observe": observe or sorted(_path_expr(p) for p in types if "." in p or p in params),
+        "patches": contract.native.get("patches", {}), "spec_funs": contract.native.get("spec_funs", {}),
+        "class_fields": contract.class_fields,
         "int_window": contract.native.get("int_window", [-2, 16]),
     }
 
@@ -57,7 +68,7 @@ def run_native(job, timeout=300):
 
 
 # ---------------------------------------------------------------------------- sampling
-def entry_worlds(ctx, contract, unit):
+def entry_worlds(ctx, contract, unit, shapes=None):
     """[(Exec after setup+requires, alias pairs)] -- one per declared alias world"""
     worlds = []
     work = [[]]
@@ -66,6 +77,15 @@ def entry_worlds(ctx, contract, unit):
         ex = Exec(ctx, contract, unit, prefix)
         try:
             setup_inputs(ex, unit, contract)
+            import ast as _ast
+            for path in sorted(shapes or {}, key=lambda s_: s_.count(".")):
+                try:
+                    ex.spec_mode = True
+                    ex.eval(_ast.parse(_path_expr(path), mode="eval").body)
+                except Exception:
+                    pass
+                finally:
+                    ex.spec_mode = False
             for r in contract.requires:
                 ex.assume(ex.spec(r))
         except PathEnd:
@@ -80,10 +100,21 @@ def entry_worlds(ctx, contract, unit):
     return worlds
 
 
-def sample_prestates(ctx, contract, unit, n, seed):
+def _path_expr(path):
+    """'self.children.0.name' -> 'self.children[0].name'"""
+    out = []
+    for seg in path.split("."):
+        if seg.isdigit() and out:
+            out[-1] = out[-1] + f"[{seg}]"
+        else:
+            out.append(seg)
+    return ".".join(out)
+
+
+def sample_prestates(ctx, contract, unit, n, seed, shapes=None):
     rnd = random.Random(seed)
     cases = []
-    worlds = entry_worlds(ctx, contract, unit)
+    worlds = entry_worlds(ctx, contract, unit, shapes)
     if not worlds:
         return cases
     per = max(1, n // len(worlds))
